@@ -606,6 +606,28 @@ func (e *Engine) registerModels() {
 		}
 		return in.tt.BV(64, uint64(int64(strings.LastIndex(s, sub))))
 	}
+	concStr2 := func(name string, f func(a, b string) string) {
+		m[name] = func(in *Interp, fn *ssa.Function, a []Value) Value {
+			s, ok1 := a[0].(Str).concrete()
+			c, ok2 := a[1].(Str).concrete()
+			if !ok1 || !ok2 {
+				panic(unsupported(name + " on symbolic strings"))
+			}
+			return in.strConst(f(s, c))
+		}
+	}
+	concStr2("strings.Trim", strings.Trim)
+	concStr2("strings.TrimLeft", strings.TrimLeft)
+	concStr2("strings.TrimRight", strings.TrimRight)
+	concStr2("strings.TrimPrefix", strings.TrimPrefix)
+	concStr2("strings.TrimSuffix", strings.TrimSuffix)
+	m["strings.ToLower"] = func(in *Interp, fn *ssa.Function, a []Value) Value {
+		s, ok := a[0].(Str).concrete()
+		if !ok {
+			panic(unsupported("strings.ToLower on symbolic string"))
+		}
+		return in.strConst(strings.ToLower(s))
+	}
 	m["strings.Contains"] = func(in *Interp, fn *ssa.Function, a []Value) Value {
 		s, ok1 := a[0].(Str).concrete()
 		sub, ok2 := a[1].(Str).concrete()
